@@ -192,6 +192,31 @@ Definition incremental (p : lprog) : bool := first_byte p =? 57.
 Definition in_range (ext : bool) (p : lprog) : bool :=
   forallb (step_in ext) (p_steps p) && ((length (p_steps p) <=? 1)%nat || (ext && incremental p)).
 
+(* ---------------- range conditions relative to the reader's atom limit vm (ProgramReader::setMaxVar) ----------------
+   The atoms of RULES (heads, bodies of every rule type, the atom of the clasp-extension rules 91 / 92) and - because the reader
+   reads it with the same call - the head COUNT of a choice / disjunctive rule are bounded by vm; symbol-table, compute-statement
+   and E-section atoms are bounded by atomMax whatever vm is (cf. Model.v, Section MaxVar).  [in_range] above is the instance
+   vm = sm_varMax = atomMax, by conversion (ProofsLex.in_range_default). *)
+Definition ratom_in (vm : Z) (n : num) : bool := (1 <=? snd n) && (snd n <=? vm).
+Definition rule_in_v (vm : Z) (ext : bool) (r : lrule) : bool :=
+  match r with
+  | RBasic _ h b => ratom_in vm h && body_in b && forallb (ratom_in vm) (b_atoms b)
+  | RMulti _ _ _ hs b => (1 <=? Z.of_nat (length hs)) && (Z.of_nat (length hs) <=? vm) && forallb (ratom_in vm) hs
+                         && body_in b && forallb (ratom_in vm) (b_atoms b)
+  | RCard _ h b bnd => ratom_in vm h && body_in b && count_in (snd bnd) && weight_in bnd && forallb (ratom_in vm) (b_atoms b)
+  | RWeight _ h bnd b wts => ratom_in vm h && count_in (snd bnd) && body_in b && weight_in bnd && forallb (ratom_in vm) (b_atoms b) && forallb weight_in wts
+  | RMin _ bnd b wts => count_in (snd bnd) && body_in b && weight_in bnd && forallb (ratom_in vm) (b_atoms b) && forallb weight_in wts
+  | RInc _ z => ext && count_in (snd z) && (snd z =? 0)
+  | RAssign _ a v => ext && ratom_in vm a && (snd v <=? 2)
+  | RRelease _ a => ext && ratom_in vm a
+  | ROther _ => false
+  end.
+Definition step_in_v (vm : Z) (ext : bool) (s : lstep) : bool :=
+  forallb (rule_in_v vm ext) (s_rules s) && forallb (fun y => atom_in (y_atom y)) (s_syms s) &&
+  forallb atom_in (s_bplus s) && forallb atom_in (s_bminus s) && ext_in (s_ext s) && count_in (snd (s_models s)).
+Definition in_range_v (vm : Z) (ext : bool) (p : lprog) : bool :=
+  forallb (step_in_v vm ext) (p_steps p) && ((length (p_steps p) <=? 1)%nat || (ext && incremental p)).
+
 (* ---------------- denotation ---------------- *)
 Definition d_body (b : lbody) : list Z :=
   let n := Z.to_nat (snd (b_neg b)) in
